@@ -3,7 +3,7 @@ CONSTANTS
   Cfgs <- CfgsV
   SeedKinds <- KindsD
   KeyKinds <- KeysD
-  MaxSeed = 3
+  MaxSeed = 2
   Lat = 20000
   Tmo = 30000
   EcuKeyLen = 2
@@ -18,6 +18,7 @@ CONSTANTS
   Dev_ContinueAfterUnlock = FALSE
   Dev_NoCheck = FALSE
   Dev_KeyLenFromZero = FALSE
+  Dev_AbortOnNegative = FALSE
   Dev_WriteMismatch = FALSE
 INVARIANT TypeOK
 INVARIANT D1_File
